@@ -4,9 +4,14 @@
   `assemble_in_order`: whenever `assembleItems` succeeds, the final list of byte blobs is the
   concatenation, in source order, of one image per source item (`Expands`, Lemmas/Order.lean):
   every blob carries the source line of the item it came from, labels and constants contribute
-  nothing, a data item contributes exactly its documented size, an instruction 2 or 4 bytes —
-  nothing is added, dropped or reordered by any of the fifteen passes.
+  nothing, a data item contributes ONE blob of exactly its documented size, an instruction ONE blob of
+  2 or 4 bytes, a pseudo-instruction ONE or TWO blobs of 2 / 4 bytes each, `align a` nothing or one blob
+  of fewer than `a` zero bytes (`Img.bytes_of_blobs`) — nothing is added, dropped or reordered by any
+  of the fifteen passes.
   `align_minimal` / `align_emits_zeros`: what `align N` contributes at position p.
+  The PROGRAM-level statement - in every successful assembly an `align a` item contributes exactly
+  `(-offset) mod a` zero bytes at its final offset - is `assemble_align` in Props/C09Program.lean (it needs
+  the anchored frame of C03End, which imports this file).
 -/
 import BB.Lemmas.OrderPasses
 import BB.Props.C03
@@ -155,12 +160,20 @@ theorem Expands.parts {items out : List Item} (h : Expands items out) :
     | zero => exact hi
     | succ j => exact hall j (by simpa using h1) (by simpa using h2)
 
-/-- what the final blobs of one source item add up to -/
+/-- what the final blobs of one source item add up to: nothing for a label / constant, the documented
+    size for a data item, 2 or 4 bytes for an instruction, ONE or TWO blobs of 2 / 4 bytes each for a
+    pseudo-instruction (never dropped, never more), and for `align a` fewer than `a` ZERO bytes -/
 theorem Img.bytes_of_blobs {it : Item} {repl : List Item} (h : Img it repl)
     (hb : ∀ x ∈ repl, ∃ line d, x = .blob line d) :
     (Item.isMarker it = true → repl = []) ∧
     (Item.isData it = true → ((blobBytes repl).length : Int) = it.sizeD) ∧
-    (Item.isInstr it = true → (blobBytes repl).length = 2 ∨ (blobBytes repl).length = 4) := by
+    (Item.isInstr it = true → (blobBytes repl).length = 2 ∨ (blobBytes repl).length = 4) ∧
+    (∀ line name args, it = .pseudo line name args →
+      (repl.length = 1 ∨ repl.length = 2) ∧
+      ((blobBytes repl).length = 2 ∨ (blobBytes repl).length = 4 ∨ (blobBytes repl).length = 6 ∨
+        (blobBytes repl).length = 8)) ∧
+    (∀ line a, it = .align line a →
+      ∃ n : Nat, (n = 0 ∨ (n : Int) < a) ∧ blobBytes repl = List.replicate n 0) := by
   have hlen : ∀ l : List Item, (∀ x ∈ l, ∃ line d, x = .blob line d) →
       ((blobBytes l).length : Int) = sizeSum l := by
     intro l hl
@@ -173,7 +186,7 @@ theorem Img.bytes_of_blobs {it : Item} {repl : List Item} (h : Img it repl)
       push_cast
       simp only [Int.ofNat_eq_natCast]
       omega
-  refine ⟨?_, ?_, ?_⟩
+  refine ⟨?_, ?_, ?_, ?_, ?_⟩
   · intro hm
     cases repl with
     | nil => rfl
@@ -182,13 +195,46 @@ theorem Img.bytes_of_blobs {it : Item} {repl : List Item} (h : Img it repl)
       have := h.marker hm _ List.mem_cons_self
       simp [Item.isMarker] at this
   · intro hd
-    rw [hlen repl hb, (h.data hd).2]
+    obtain ⟨x, rfl, _, hs⟩ := h.data hd
+    rw [hlen _ hb, ← hs]; simp [sizeSum]
   · intro hi
-    rcases h.instr hi with ⟨x, rfl, hx⟩ | ⟨_, hs⟩
-    · obtain ⟨line, d, rfl⟩ := hb x List.mem_cons_self
-      simp [Item.isInstr] at hx
-    · have := hlen repl hb
-      omega
+    obtain ⟨x, rfl, hx⟩ := h.instr hi
+    have h1 := hlen _ hb
+    have h2 := Item.isCode_size hx
+    simp only [sizeSum, List.map_cons, List.map_nil, List.sum_cons, List.sum_nil] at h1
+    omega
+  · intro line name args hit
+    subst hit
+    rcases h.special rfl with rfl | hsp
+    · obtain ⟨l, d, e⟩ := hb _ List.mem_cons_self
+      cases e
+    · simp only [SpecImg] at hsp
+      have h1 := hlen _ hb
+      have h2 := hsp.size
+      refine ⟨?_, by omega⟩
+      rcases hsp with ⟨x, rfl, _⟩ | ⟨x, y, rfl, _, _⟩ <;> simp
+  · intro line a hit
+    subst hit
+    rcases h.special rfl with rfl | hsp
+    · obtain ⟨l, d, e⟩ := hb _ List.mem_cons_self
+      cases e
+    · simp only [SpecImg] at hsp
+      rcases hsp with rfl | ⟨n, _, hn, rfl⟩
+      · exact ⟨0, Or.inl rfl, rfl⟩
+      · exact ⟨n, Or.inr hn, by simp [blobBytes]⟩
+
+/-- the reviewer's escapes are closed: a pseudo-instruction never vanishes … -/
+theorem pseudo_not_dropped (line : Line) (name : String) (args : List String) :
+    ¬ Expands [.pseudo line name args] [] := by
+  intro h
+  have := (Img.bytes_of_blobs h.single_inv (fun x hx => by simp at hx)).2.2.2.1 line name args rfl
+  simp at this
+
+/-- … and an `align a` never turns into anything but fewer than `a` zero bytes -/
+theorem align_image_zeros (line : Line) (a : Int) (out : List Item) (h : Expands [.align line a] out)
+    (hb : ∀ x ∈ out, ∃ l d, x = .blob l d) :
+    ∃ n : Nat, (n = 0 ∨ (n : Int) < a) ∧ blobBytes out = List.replicate n 0 :=
+  (Img.bytes_of_blobs h.single_inv hb).2.2.2.2 line a rfl
 
 /-! ### align -/
 
